@@ -13,7 +13,13 @@ import Py4hwV.Proto.WaveformNet
    Stateful netlist session (Net.Sim + generated leaves + recorder leaves), as Drv/Net.lean plus
      cons <w> <v>                  construction-time put (before begin), as in Drv/Net.lean
      recorder <k> | uniq           leaf k is a Waveform with these uniqueWires
-     data <k>                      -> key:v,v;key:…                 cleardata <k> -/
+     data <k>                      -> key:v,v;key:…                 cleardata <k>
+   Sessions with Waveform OBJECTS (model `Waveform.session`: poke/clk also go through `sessStep`):
+     wfobj <k> | name | entries    leaf k is the Waveform constructed from this watch list (before begin)
+                                   -> ok | uniq   /  raise
+     clearwf <i>                   `wvf_i.clear()`   (i = index in wfobj order)
+     render <i> <0|1>              -> text | clkwave | name~wave~l,l ! …      (`wvf_i.get_wavedrom(shortNames)` NOW)
+     getdict <i>                   -> key:v,v;key:…                           (`wvf_i.getDict()` NOW) -/
 open Proto Net
 
 def str (l : List Char) : String := String.ofList l
@@ -79,8 +85,23 @@ structure Sess where
   recs : List (Nat × List Nat) := []
   s    : Option (State St) := none
   cons : List (Nat × Int) := []          -- construction-time puts (Reg puts its reset value on q)
+  objs : List Waveform.Rec := []         -- Waveform objects of the session (wfobj order)
 
 def Sess.design (ss : Sess) : Design St := Waveform.withRecorders ss.nl.design ss.recs
+
+def showOut : Option Waveform.Out → String
+  | some (.wd _ _ wd) => s!"{str wd.text} | {str wd.clk.wave} | " ++ "!".intercalate (wd.rows.map showRow)
+  | some (.dict _ dd) => showDict dd
+  | none => "bad-op"
+
+def Sess.op (ss : Sess) (o : Waveform.SOp) : Sess × String :=
+  match ss.s with
+  | some s =>
+    match o with
+    | .render _ _ => (ss, showOut (Waveform.sessOut ss.design Waveform.Acc.snd ss.objs s o))
+    | .dict _ => (ss, showOut (Waveform.sessOut ss.design Waveform.Acc.snd ss.objs s o))
+    | _ => ({ ss with s := some (Waveform.sessStep ss.design Waveform.Acc.snd ss.objs s o) }, "ok")
+  | none => (ss, "bad-op")
 
 def words (s : String) : List String := (s.splitOn " ").filter (· ≠ "")
 
@@ -105,13 +126,25 @@ def step (ss : Sess) (line : String) : Sess × String :=
       | some w, some v => ({ ss with cons := ss.cons ++ [(w, v)] }, "ok")
       | _, _ => (ss, "bad-op")
     | ["poke", w, v] =>
-      match ss.s, w.toNat?, v.toInt? with
-      | some s, some w, some v => ({ ss with s := some (putW ss.design s (w, v)) }, "ok")
-      | _, _, _ => (ss, "bad-op")
-    | ["clk", n] =>
-      match ss.s, n.toNat? with
-      | some s, some n => ({ ss with s := some (clk ss.design n s) }, "ok")
+      match w.toNat?, v.toInt? with
+      | some w, some v => ss.op (.poke w v)
       | _, _ => (ss, "bad-op")
+    | ["clk", n] =>
+      match n.toNat? with
+      | some n => ss.op (.clk n)
+      | _ => (ss, "bad-op")
+    | ["clearwf", i] =>
+      match i.toNat? with
+      | some i => if i < ss.objs.length then ss.op (.clear i) else (ss, "bad-op")
+      | _ => (ss, "bad-op")
+    | ["render", i, b] =>
+      match i.toNat? with
+      | some i => ss.op (.render i (b = "1"))
+      | _ => (ss, "bad-op")
+    | ["getdict", i] =>
+      match i.toNat? with
+      | some i => ss.op (.dict i)
+      | _ => (ss, "bad-op")
     | ["vals"] =>
       match ss.s with
       | some s => (ss, showNats ((List.range ss.nl.widths.length).map s.val))
@@ -135,6 +168,17 @@ def step (ss : Sess) (line : String) : Sess × String :=
       match k.toNat? with
       | some k => ({ ss with recs := ss.recs ++ [(k, parseNats ks)] }, "ok")
       | none => (ss, "bad-op")
+    | _ => (ss, "bad-op")
+  | [hd, nm, es] =>
+    match words hd with
+    | ["wfobj", k] =>
+      let entries := if (trim es).isEmpty then [] else ((trim es).splitOn "!").filterMap parseEntry
+      match k.toNat?, Waveform.init ss.nl.design.width nm.toList entries with
+      | some k, some wf0 =>
+        ({ ss with recs := ss.recs ++ [(k, wf0.uniq)], objs := ss.objs ++ [{ leaf := k, wf0 := wf0 }] },
+         s!"ok | {showNats wf0.uniq}")
+      | some _, none => (ss, "raise")
+      | none, _ => (ss, "bad-op")
     | _ => (ss, "bad-op")
   | [hd, c, s0, i, il, o, ol, fl] =>
     match words hd with
